@@ -36,12 +36,27 @@ def main(tier):
         ftypes = {v["name"]: [f["ty"] for f in v["fields"]] for v in node["variants"]}
         nuses += tree_walk(run, m, ev, m.tb.eval_arms(), ftypes, tag="C04 premise (tree walk):")
     run.floor("child uses inspected", nuses, 150)
+    precedence_tables(run, F, models)
+    report_issues(run, models, tables={"T_prec", "T_prim", "T_loop", "T_lex"})
+    run.floor("evaluators analysed", len(models), 5)
+    run.floor("obligations", run.obligations, 150)
+    run.coverage_extra["derived_facts"] = ["Power < Negative => -2^2 = (-2)^2 = 4", "Negative < Functional => -3! = -(3!)", "rhs of ^ parsed at Power => only Negative/Functional items are absorbed: 2^3! = 2^(3!)",
+                                           "rhs level = own level with strict `<` => equal-precedence operators group left to right, including ^"]
+    return run.finish("per evaluator: token->category for every operator surface, climbing-loop shape, rhs level / node shape per operator, prefix/postfix/bracket arms; distinct = distinct (evaluator, table cell)",
+                      "./check C04 --tier %s" % tier)
+
+
+def precedence_tables(run, F, models, tag="C04"):
+    """The parameter tables of the precedence-climbing schema (category order, token -> category, right-operand level,
+    node shape, prefix / postfix / bracket arms).  C04 proper; a premise of the arithmetic properties (C05..C09), whose
+    statements are about the value of *expressions*: that is the value of the standard tree only if the tree is standard."""
+    P = "" if tag == "C04" else "%s premise (standard tree) " % tag
     # 1. category order
     order, derived, manual = category_order(F)
-    want = [c for c in spec.CATEGORY_ORDER if ("eval_i64" in models or c not in spec.I64_ONLY_CATEGORIES)]
-    run.ob(order == want, "category-order", "C04-1 OperatorCategory variants in declaration order = loosest..tightest",
+    want = [c for c in spec.CATEGORY_ORDER if ("eval_i64" in F.evaluators_present() or c not in spec.I64_ONLY_CATEGORIES)]
+    run.ob(order == want, "category-order", P + "C04-1 OperatorCategory variants in declaration order = loosest..tightest",
            "utils::operator_category::OperatorCategory", "found %s, expected %s" % (order, want), sample={"category_order": order})
-    run.ob(derived and not manual, "category-derive", "C04-1 ordering is the derived PartialOrd (no manual impl)",
+    run.ob(derived and not manual, "category-derive", P + "C04-1 ordering is the derived PartialOrd (no manual impl)",
            "utils::operator_category::OperatorCategory", "derived=%s manual impls=%s" % (derived, manual))
     rank = {c: i for i, c in enumerate(order or [])}
     for ev, m in models.items():
@@ -53,11 +68,11 @@ def main(tier):
                 continue
             tv = m.tokvar(surf)
             if tv is None:
-                run.ob(False, "lex|%s|%s" % (ev, surf), "C04-2 operator is tokenised", where(m, "::tokenizer::Tokenizer"), "surface %r is not recognised as one token" % surf)
+                run.ob(False, "lex|%s|%s" % (ev, surf), P + "C04-2 operator is tokenised", where(m, "::tokenizer::Tokenizer"), "surface %r is not recognised as one token" % surf)
                 continue
             tv0 = tv[0] if isinstance(tv, tuple) else tv
             got = m.tb.category_of(tv0)
-            run.ob(got == cat, "category|%s|%s" % (ev, surf), "C04-2 token category = reference table",
+            run.ob(got == cat, "category|%s|%s" % (ev, surf), P + "C04-2 token category = reference table",
                    where(m, "::token::Token::get_oper_prec"), "%r (Token::%s) has category %s, expected %s" % (surf, tv0, got, cat),
                    sample={"evaluator": ev, "operator": surf, "token": tv0, "category": got})
         for surf, evs in spec.NEUTRAL_SURFACES.items():
@@ -67,22 +82,22 @@ def main(tier):
             if tv is None:
                 continue
             got = m.tb.category_of(tv)
-            run.ob(got == "DefaultZero", "category|%s|%s" % (ev, surf), "C04-2 non-operator tokens have the loosest category",
+            run.ob(got == "DefaultZero", "category|%s|%s" % (ev, surf), P + "C04-2 non-operator tokens have the loosest category",
                    where(m, "::token::Token::get_oper_prec"), "%r (Token::%s) has category %s, expected DefaultZero" % (surf, tv, got))
         for tv in ("Eof", "Num", "Comma", "RightParen"):
             got = m.tb.category_of(tv)
-            run.ob(got == "DefaultZero", "category|%s|%s" % (ev, tv), "C04-2 non-operator tokens have the loosest category",
+            run.ob(got == "DefaultZero", "category|%s|%s" % (ev, tv), P + "C04-2 non-operator tokens have the loosest category",
                    where(m, "::token::Token::get_oper_prec"), "Token::%s has category %s" % (tv, got))
         got = m.tb.category_of("Superscript")
-        run.ob(got == spec.SUPERSCRIPT_CATEGORY, "category|%s|superscript" % ev, "C04-2 superscript exponents bind like ^", where(m, "::token::Token::get_oper_prec"), "Superscript has category %s" % got)
+        run.ob(got == spec.SUPERSCRIPT_CATEGORY, "category|%s|superscript" % ev, P + "C04-2 superscript exponents bind like ^", where(m, "::token::Token::get_oper_prec"), "Superscript has category %s" % got)
         got = m.tb.category_of("ExplicitFunction")
-        run.ob(got == spec.FUNCTION_CATEGORY, "category|%s|function" % ev, "C04-2 function application binds tightest", where(m, "::token::Token::get_oper_prec"), "ExplicitFunction has category %s" % got)
+        run.ob(got == spec.FUNCTION_CATEGORY, "category|%s|function" % ev, P + "C04-2 function application binds tightest", where(m, "::token::Token::get_oper_prec"), "ExplicitFunction has category %s" % got)
         # 3. climbing loop
         ok, detail = m.generate_ast_shape()
-        run.ob(ok, "climb|%s" % ev, "C04-3 generate_ast is the precedence-climbing schema with a strict `<`", where(m, "::parser::Parser::generate_ast"), detail,
+        run.ob(ok, "climb|%s" % ev, P + "C04-3 generate_ast is the precedence-climbing schema with a strict `<`", where(m, "::parser::Parser::generate_ast"), detail,
                sample={"evaluator": ev, "generate_ast": detail})
         ok, detail, start = m.parse_shape()
-        run.ob(ok and start == "DefaultZero", "parse-start|%s" % ev, "C04-7 parse() starts the climb at the loosest level", where(m, "::parser::Parser::parse"), detail or "starts at %s" % start)
+        run.ob(ok and start == "DefaultZero", "parse-start|%s" % ev, P + "C04-7 parse() starts the climb at the loosest level", where(m, "::parser::Parser::parse"), detail or "starts at %s" % start)
         # 4. binary operators: rhs level = own category, node(left, right)
         b = m.bin()
         for surf, (cat, evs) in spec.BINARY_OPS.items():
@@ -90,7 +105,7 @@ def main(tier):
                 continue
             tv = m.tokvar(surf)
             if tv is None or tv not in b:
-                run.ob(False, "bin-arm|%s|%s" % (ev, surf), "C04-4 binary operator has an arm in convert_token_to_node", where(m, "::parser::Parser::convert_token_to_node"), "no arm for %r (Token::%s)" % (surf, tv))
+                run.ob(False, "bin-arm|%s|%s" % (ev, surf), P + "C04-4 binary operator has an arm in convert_token_to_node", where(m, "::parser::Parser::convert_token_to_node"), "no arm for %r (Token::%s)" % (surf, tv))
                 continue
             pat, (evs_, tail) = b[tv]
             shape = [e[0:2] if e[0] == "ast" else e[0:1] for e in evs_]
@@ -98,37 +113,37 @@ def main(tier):
             ok_shape = len(evs_) == 2 and evs_[0][0] == "next" and evs_[1][0] == "ast" and tried
             rhs = evs_[1][1] if ok_shape else None
             run.ob(ok_shape and rhs == m.tb.category_of(tv) and rhs == cat, "rhs-level|%s|%s" % (ev, surf),
-                   "C04-4 right operand is parsed at the operator's own level (left associativity)", where(m, "::parser::Parser::convert_token_to_node"),
+                   P + "C04-4 right operand is parsed at the operator's own level (left associativity)", where(m, "::parser::Parser::convert_token_to_node"),
                    "%r: effects %s, rhs level %s, own category %s" % (surf, shape, rhs, m.tb.category_of(tv)),
                    sample={"evaluator": ev, "operator": surf, "rhs_level": rhs})
             e = None
             if tail[0] == "ok":
                 e = M(("ctor", "?n", lp, ("R1",)), tail[1])
-            run.ob(e is not None, "node-order|%s|%s" % (ev, surf), "C04-4 node is ctor(left, right) in that order", where(m, "::parser::Parser::convert_token_to_node"),
+            run.ob(e is not None, "node-order|%s|%s" % (ev, surf), P + "C04-4 node is ctor(left, right) in that order", where(m, "::parser::Parser::convert_token_to_node"),
                    "%r builds %s" % (surf, show_tail(tail)[:160]))
         # 5. prefix and postfix operators
         pr = m.prim()
         for surf, neg in (("-", True), ("+", False)):
             tv = m.tokvar(surf)
             if tv not in pr:
-                run.ob(False, "prefix|%s|%s" % (ev, surf), "C04-5 prefix sign is a primary", where(m, "::parser::Parser::parse_number"), "no parse_number arm for prefix %r" % surf)
+                run.ob(False, "prefix|%s|%s" % (ev, surf), P + "C04-5 prefix sign is a primary", where(m, "::parser::Parser::parse_number"), "no parse_number arm for prefix %r" % surf)
                 continue
             pat, (evs_, tail) = pr[tv]
             ok_shape = len(evs_) == 2 and evs_[0][0] == "next" and evs_[1][0] == "ast" and all(e[-1] == "tried" for e in evs_)
             lvl = evs_[1][1] if ok_shape else None
-            run.ob(ok_shape and lvl == spec.PREFIX_LEVEL, "prefix-level|%s|%s" % (ev, surf), "C04-5 operand of a prefix sign is parsed at level Negative (tighter than ^, looser than !)",
+            run.ob(ok_shape and lvl == spec.PREFIX_LEVEL, "prefix-level|%s|%s" % (ev, surf), P + "C04-5 operand of a prefix sign is parsed at level Negative (tighter than ^, looser than !)",
                    where(m, "::parser::Parser::parse_number"), "prefix %r: effects %s" % (surf, [e[:2] for e in evs_]), sample={"evaluator": ev, "prefix": surf, "operand_level": lvl})
             if neg:
                 e = M(("ctor", "?n", ("R1",)), tail[1]) if tail[0] == "ok" else None
-                run.ob(e is not None, "prefix-node|%s|-" % ev, "C04-5 prefix minus wraps its operand in one unary node", where(m, "::parser::Parser::parse_number"), show_tail(tail)[:160])
+                run.ob(e is not None, "prefix-node|%s|-" % ev, P + "C04-5 prefix minus wraps its operand in one unary node", where(m, "::parser::Parser::parse_number"), show_tail(tail)[:160])
             else:
-                run.ob(tail == ("ok", ("R1",)), "prefix-node|%s|+" % ev, "C04-5 prefix plus returns its operand unchanged", where(m, "::parser::Parser::parse_number"), show_tail(tail)[:160])
+                run.ob(tail == ("ok", ("R1",)), "prefix-node|%s|+" % ev, P + "C04-5 prefix plus returns its operand unchanged", where(m, "::parser::Parser::parse_number"), show_tail(tail)[:160])
         for surf, (cat, evs) in spec.POSTFIX_OPS.items():
             if ev not in evs:
                 continue
             tv = m.tokvar(surf)
             if tv is None or tv not in b:
-                run.ob(False, "postfix|%s|%s" % (ev, surf), "C04-5 postfix operator has an arm", where(m, "::parser::Parser::convert_token_to_node"), "no arm for %r" % surf)
+                run.ob(False, "postfix|%s|%s" % (ev, surf), P + "C04-5 postfix operator has an arm", where(m, "::parser::Parser::convert_token_to_node"), "no arm for %r" % surf)
                 continue
             pat, (evs_, tail) = b[tv]
             ok_shape = len(evs_) == 1 and evs_[0][0] == "next" and evs_[0][-1] == "tried"
@@ -140,24 +155,24 @@ def main(tier):
             else:
                 e = M(("ctor", "?n", lp, ("ctor", "?leaf", "?k")), tail[1]) if tail[0] == "ok" else None
                 ok2 = e is not None
-            run.ob(ok_shape and ok2, "postfix-shape|%s|%s" % (ev, surf), "C04-5 postfix operator consumes one token, takes no right operand and wraps the left operand",
+            run.ob(ok_shape and ok2, "postfix-shape|%s|%s" % (ev, surf), P + "C04-5 postfix operator consumes one token, takes no right operand and wraps the left operand",
                    where(m, "::parser::Parser::convert_token_to_node"), "%r: effects %s result %s" % (surf, [e_[:2] for e_ in evs_], show_tail(tail)[:160]))
         if "Superscript" in b:
             pat, (evs_, tail) = b["Superscript"]
             e = M(("pvar", "Token::Superscript", ("bind", "?b")), pat)
             ok_shape = len(evs_) == 1 and evs_[0][0] == "next" and evs_[0][-1] == "tried"
             e2 = M(("ctor", "?n", lp, ("ctor", "?leaf", ("var", e["?b"]))), tail[1]) if (e is not None and tail[0] == "ok") else None
-            run.ob(ok_shape and e2 is not None, "postfix-shape|%s|superscript" % ev, "C04-5 superscript run builds pow(left, literal) with no right operand",
+            run.ob(ok_shape and e2 is not None, "postfix-shape|%s|superscript" % ev, P + "C04-5 superscript run builds pow(left, literal) with no right operand",
                    where(m, "::parser::Parser::convert_token_to_node"), "effects %s result %s" % ([e_[:2] for e_ in evs_], show_tail(tail)[:160]))
         else:
-            run.ob(False, "postfix-shape|%s|superscript" % ev, "C04-5 superscript arm exists", where(m, "::parser::Parser::convert_token_to_node"), "no Superscript arm")
+            run.ob(False, "postfix-shape|%s|superscript" % ev, P + "C04-5 superscript arm exists", where(m, "::parser::Parser::convert_token_to_node"), "no Superscript arm")
         # 6. brackets
         for opn, (cls, evs, wrap) in spec.BRACKETS.items():
             if ev not in evs:
                 continue
             tvo, tvc = m.tokvar(opn), m.tokvar(cls)
             if tvo not in pr:
-                run.ob(False, "bracket|%s|%s" % (ev, opn), "C04-6 bracket is a primary", where(m, "::parser::Parser::parse_number"), "no parse_number arm for %r" % opn)
+                run.ob(False, "bracket|%s|%s" % (ev, opn), P + "C04-6 bracket is a primary", where(m, "::parser::Parser::parse_number"), "no parse_number arm for %r" % opn)
                 continue
             pat, (evs_, tail) = pr[tvo]
             ok_b = (not evs_) and tail[0] == "tailcall" and tail[1][0] == "encl"
@@ -171,7 +186,7 @@ def main(tier):
                 else:
                     okw = M("(lambda ((bind ?x)) (ctor ?n (var ?x)))", wr) is not None
             run.ob(ok_b and inner == "DefaultZero" and endt == tvc and okw, "bracket|%s|%s" % (ev, opn),
-                   "C04-6 bracket restarts at the loosest level, is closed by its own closing token and wraps the inner tree only",
+                   P + "C04-6 bracket restarts at the loosest level, is closed by its own closing token and wraps the inner tree only",
                    where(m, "::parser::Parser::parse_number"), "%r: inner level %s, closing Token::%s (expected %s), wrapper %s" % (opn, inner, endt, tvc, T.show(wr)[:120] if wr else None),
                    sample={"evaluator": ev, "bracket": opn + cls, "inner_level": inner})
         s = m.summary("get_enclosed_elements_with_impl_mult")
@@ -185,12 +200,5 @@ def main(tier):
                 want = [("next",), ("ast", "param:%s" % m._param_name(fe_, 1)), ("check", "param:%s" % m._param_name(fe_, 2))]
             ok_e = shape == want and all(e[-1] == "tried" for e in evs_) \
                 and tail[0] == "tailcall" and tail[1][0] == "impl" and M("(icall (param ?g) (R1))", tail[1][1]) is not None
-            run.ob(ok_e, "enclosed|%s" % ev, "C04-6 bracket helper: consume opener, parse inner at the given level, require the given closer, wrap",
+            run.ob(ok_e, "enclosed|%s" % ev, P + "C04-6 bracket helper: consume opener, parse inner at the given level, require the given closer, wrap",
                    where(m, "::parser::Parser::get_enclosed_elements_with_impl_mult"), "effects %s then %s" % (shape, show_tail(tail)[:120]))
-    report_issues(run, models, tables={"T_prec", "T_prim", "T_loop", "T_lex"})
-    run.floor("evaluators analysed", len(models), 5)
-    run.floor("obligations", run.obligations, 150)
-    run.coverage_extra["derived_facts"] = ["Power < Negative => -2^2 = (-2)^2 = 4", "Negative < Functional => -3! = -(3!)", "rhs of ^ parsed at Power => only Negative/Functional items are absorbed: 2^3! = 2^(3!)",
-                                           "rhs level = own level with strict `<` => equal-precedence operators group left to right, including ^"]
-    return run.finish("per evaluator: token->category for every operator surface, climbing-loop shape, rhs level / node shape per operator, prefix/postfix/bracket arms; distinct = distinct (evaluator, table cell)",
-                      "./check C04 --tier %s" % tier)
